@@ -38,7 +38,7 @@ func batchOrigin(c *Ctx, use ssa.Instruction, v ssa.Value) (bool, string) {
 				return false
 			}
 			for _, t := range nilTestsOf(c, ev) {
-				if blockOrDom(t.N, use.Block()) {
+				if nilEdgeDom(t, use.Block()) {
 					okk = true
 				}
 			}
@@ -235,7 +235,7 @@ func propC05(c *Ctx, r *Report) {
 			}
 			sameBatch := sliceHas(ex.Common().Args[2], func(x ssa.Value) bool { return x == v.Common().Args[0] }) || v.Common().Args[0] == ex.Common().Args[2] || sameExpr(v.Common().Args[0], ex.Common().Args[2])
 			for _, t := range nilTestsOf(c, ev) {
-				if blockOrDom(t.N, ex.Block()) && sameBatch && valuePath(unwrapConv(v.Common().Args[1])) == "currentHeight" {
+				if nilEdgeDom(t, ex.Block()) && sameBatch && valuePath(unwrapConv(v.Common().Args[1])) == "currentHeight" {
 					okk = true
 				}
 			}
@@ -279,6 +279,10 @@ func propC05(c *Ctx, r *Report) {
 		r.check(hasNil == cs.ok, "C05-R6/valid-data", cs.name, c.pos(vd.Pos()), map[bool]string{true: "accepted", false: "rejected"}[cs.ok], fmt.Sprintf("results %v, expected %s", errs, map[bool]string{true: "accepted", false: "rejected"}[cs.ok]))
 	}
 	acc.report(c, r, "C05-R6/valid-data", vd)
+
+	// one signature, one execution: shared with C06 (replay guard dominance, same table on the block's tx)
+	ruleReplayGuard(c, r, "C05-R7/one-signature-one-execution")
+	ruleReplaySameTx(c, r, buildSQLCat(c), "C05-R7/one-signature-one-execution")
 
 	// dependency advisory → known finding: bytes of the RCD-e signature that are length-checked but never read
 	r.rule("C05/validated-bytes", 1, "every length-checked signature byte is covered by the verification")
